@@ -35,7 +35,7 @@ CONSTANTS Mods,        \* module names
           Kinds,       \* source kinds offered to register / deregister: subset of {"fd", "tmr", "sgn", "path", "pid", "task", "thr"}
                        \* (events of "fd", "tmr", "sgn", "path", "pid", "task" sources are delivered; "thr" is covered in the registry only)
           Keys,        \* identifying values per kind (small integers; the driver maps them to descriptors, periods, signals, ...)
-          SrcOpts,     \* option records [os |-> oneshot, ac |-> autoclose] offered at registration
+          SrcOpts,     \* option records [os |-> oneshot, ac |-> autoclose, pr |-> priority "L" | "N" | "H"] offered at registration
           EvKinds,     \* kinds of poll events that can occur in this configuration: subset of {"ps", "fd", "tmr", "sgn", "path", "pid", "task", "tb", "bt", "tick"}
           MaxBatch,    \* at most this many events in one poll batch
           Errnos,      \* errno values a callback may leave behind (SetErrno)
@@ -76,7 +76,7 @@ RegSeq(s) == SelectSeq(Order, LAMBDA m : m \in Registered(s))
 
 \* old: object of a released context; subs: set of [pat, pr] (priority "L" | "N" | "H"), one per pattern;
 \* bq/blen: events held back by batching and the configured batch size; stash; hs: handlers installed with become (top first)
-\* src: registered sources, a set of [k, key, os, ac] with at most one element per (k, key)
+\* src: registered sources, a set of [k, key, os, ac, pr] with at most one element per (k, key)
 \* tb: token bucket [rate (0 = no limit), burst, tok]; bt: a batch timeout is configured (internal timer)
 \* h: references the program holds on the module object (1 from registration, +1 per m_mem_ref); the object exists while it is
 \* registered or referenced
@@ -322,7 +322,7 @@ Step(s) ==
                                                 !.due = IF e[2] = "tmr" THEN @ \ {<<x, e[3]>>} ELSE @,
                                                 !.sigp = IF e[2] = "sgn" THEN @ \ {e[3]} ELSE @,
                                                 !.xdue = @ \ {<<x, e[2], e[3]>>}]
-                             ev == [SrcEvt(e[2], e[3]) EXCEPT !.pr = IF e[2] = "fd" THEN "H" ELSE "N"]
+                             ev == [SrcEvt(e[2], e[3]) EXCEPT !.pr = IF e[2] = "fd" THEN "H" ELSE src.pr]
                          IN PushEvt(s1, x, ev)
       [] f.k = "evt2" ->         \* after the handler: the events of that invocation are released
             [r EXCEPT !.pay = ReleaseAll(r.pay, f.ev)]
@@ -424,6 +424,10 @@ Dispatch(b) == /\ Can("Dispatch") /\ AtTop
                   ELSE IF S.ctx.st = "idle" THEN b = <<>> /\ Do(Push(S, Fr("lstart", NoMod, 0, 0)))
                   ELSE IF S.ctx.quit \/ S.run = 0 THEN b = <<>> /\ Do(Push(S, Fr("lstop", NoMod, 0, 0)))
                   ELSE b \in Batches(S) /\ Do(Push(S, Fr("batch", NoMod, 0, b)))
+
+\* the poll is interrupted by a signal handler of the application (EINTR): nothing is delivered, nothing changes, the loop goes on
+DispatchIntr == /\ Can("DispatchIntr") /\ AtTop /\ ~NoCtx /\ S.ctx.st = "looping" /\ ~(S.ctx.quit \/ S.run = 0)
+                /\ S' = [S EXCEPT !.ret = 0]
 
 (* ------------------------------ module calls ------------------------------ *)
 \* (modelling bound) a name is not registered again while a call concerning its previous incarnation is still in progress
@@ -548,9 +552,10 @@ SrcRegister(m, k, key, o) ==
     /\ (k = "fd" => ~Holds(S, key))                                       \* (modelling bound: no event of an earlier registration of it is still referenced)
     /\ (k = "sgn" => \A x \in Mods \ {m} : ~HasSrc(S, x, "sgn", key))      \* (precondition: one owner per signal - the kernel hands a signal to one reader)
     /\ (k \in {"sgn", "pid"} => ~InBatch(S, m, k, key))                     \* (modelling bound: not registered again while an event of its previous registration waits in the current batch)
-    /\ IF ModRefused(m) THEN Refuse(NEG)
+    /\ IF k = "fd" /\ o.pr = "L" THEN Refuse(NEG)                                \* (bad parameter: descriptor events are always high priority)
+       ELSE IF ModRefused(m) THEN Refuse(NEG)
        ELSE IF HasSrc(S, m, k, key) THEN Rated(m, Ret(S, EEXIST))                 \* (the token is taken before the lookup)
-       ELSE Rated(m, [S EXCEPT !.mod[m].src = @ \cup {[k |-> k, key |-> key, os |-> (o.os \/ k \in {"task", "thr"}), ac |-> o.ac]},
+       ELSE Rated(m, [S EXCEPT !.mod[m].src = @ \cup {[k |-> k, key |-> key, os |-> (o.os \/ k \in {"task", "thr"}), ac |-> o.ac, pr |-> o.pr]},
                                \* a task registered on a RUNNING module is started at once
                                !.trun = IF k = "task" /\ S.mod[m].st = "running" THEN @ \cup {<<m, key>>} ELSE @, !.ret = 0])
 
@@ -649,6 +654,7 @@ CbReturn(v) ==
 Next == \/ CtxRegister \/ CtxDeregister \/ CtxFinalize
         \/ \E c \in QuitCodes : CtxQuit(c)
         \/ \E b \in AllBatches : Dispatch(b)
+        \/ DispatchIntr
         \/ \E m \in Mods : RefMod(m) \/ ForeignTell(m) \/ \E op \in ForeignOps, own \in BOOLEAN : ForeignCall(op, m, own)
         \/ \E i \in 1..3 : RetainEvt(i) \/ ReleaseEvt(i)
         \/ \E m \in Mods : \/ (\E i \in 1..2 : ModRegister(m, i)) \/ ModDeregister(m) \/ ModStart(m) \/ ModResume(m) \/ ModPause(m) \/ ModStop(m)
@@ -733,6 +739,8 @@ C18_Accounting == [][\A m \in Mods : (Limited(S, m) /\ Limited(S', m) /\ S.mod[m
 C16_NoHighStashed == \A m \in Mods : \A i \in 1..Len(S.mod[m].stash) : S.mod[m].stash[i].pr # "H"
 \* state constraint for the pub/sub configuration: keep the population of registered-but-never-started modules small
 PsConstraint == TRUE
+\* state constraint for configurations with low-priority sources (their events pile up in the batch queue without bound)
+BqBound == \A m \in Mods : Len(S.mod[m].bq) <= 2
 TypeOK == /\ S.ctx.st \in {"none", "idle", "looping"}
           /\ \A m \in Mods : S.mod[m].st \in {"none", "idle", "running", "paused", "stopped", "zombie"}
           /\ S.run \in 0..(Cardinality(Mods) + 1)
